@@ -400,6 +400,12 @@ pub fn cases() -> Vec<S16> {
                         "WeightedMean" | "WeightedMeanWithError" => (0..n).map(|i| 0.5 + i as f64).collect(),
                         _ => (0..n).map(|i| 3.0 - (i * i) as f64).collect(),
                     };
+                    if matches!(*ty, "WeightedMean" | "WeightedMeanWithError") {
+                        // non-constant observations whose total weight is zero
+                        out.push(S16 { ty: ty.to_string(), xs: xs.clone(), ys: vec![0.0; n] });
+                        // ... and with only the first weight zero
+                        out.push(S16 { ty: ty.to_string(), xs: xs.clone(), ys: (0..n).map(|i| if i == 0 { 0.0 } else { 1.5 }).collect() });
+                    }
                     out.push(S16 { ty: ty.to_string(), xs, ys });
                 }
             }
@@ -433,7 +439,9 @@ pub fn run(cx: &Ctx) {
                 "Covariance" => vec![w - 3.0; n],
                 _ => vec![if zero_w { 0.0 } else { w.max(1e-6) }; n],
             };
-            S16 { ty: ty.to_string(), xs: vec![v; n], ys }
+            // every third case: non-constant observations (relevant for the zero-total-weight sentinels)
+            let xs: Vec<f64> = if n >= 2 && (n + t) % 3 == 0 { (0..n).map(|i| v + (i as f64) * (v.abs() * 0.25).max(1.0)).collect() } else { vec![v; n] };
+            S16 { ty: ty.to_string(), xs, ys }
         })
     };
     cx.run_pt(&Sentinels, cx.by(600, 6000), cx.workers, strat, "random C01 values, n in 0..=4 or a constant stream of length 5..3000");
